@@ -274,3 +274,51 @@ def histories(rng, n, n_ops=16):
         g = Gen(random.Random(rng.getrandbits(48)))
         out.append({"hid": i, "ops": g.history(n_ops)})
     return out
+
+
+def multistudy_histories(rng, n):
+    """'ids are storage-wide, numbers are per study': two or three studies whose trials are created interleaved, so that in
+    every study but the first trial ids and trial numbers differ; after every completion each study is asked for its best
+    trial, and ids/numbers/counts are read back per study"""
+    import random
+
+    vals = [v for v in sd.FINITE] + [-1000, 1000]
+    out = []
+    for i in range(n):
+        r = random.Random(rng.getrandbits(48))
+        ns = r.choice([2, 2, 3])
+        ops = [{"a": "create_study", "name": nm, "dirs": [r.randint(0, 1)]} for nm in ["A", "B", "C"][:ns]]
+        owner = []
+        open_t = []
+        for _ in range(r.randint(5, 8)):
+            if len(owner) < 7 and (not open_t or r.random() < 0.55):
+                s = r.randint(1, ns)
+                if r.random() < 0.3:
+                    tm = {"has": 1, "state": "COMPLETE", "values": [r.choice(vals)], "params": {}, "ua": {}, "sa": {},
+                          "iv": {}, "ts": 1, "tc": 2}
+                else:
+                    tm = {"has": 0}
+                    open_t.append(len(owner) + 1)
+                ops.append({"a": "create_trial", "s": s, "tm": tm})
+                owner.append(s)
+                touched = s
+            else:
+                t = open_t.pop(r.randrange(len(open_t)))
+                st = r.choice(["COMPLETE", "COMPLETE", "COMPLETE", "PRUNED", "FAIL"])
+                ops.append({"a": "set_state", "t": t, "state": st,
+                            "values": [r.choice(vals)] if st == "COMPLETE" or (st == "PRUNED" and r.random() < 0.5) else sd.NONE_V})
+                touched = owner[t - 1]
+            for s in ([touched] if r.random() < 0.5 else range(1, ns + 1)):
+                ops.append({"a": "get_best_trial", "s": s})
+            y = r.random()
+            if y < 0.25:
+                ops.append({"a": "get_trial_id_from_number", "s": r.randint(1, ns), "n": r.randint(0, 3)})
+            elif y < 0.5 and owner:
+                ops.append({"a": "get_trial_number", "t": r.randint(1, len(owner))})
+            elif y < 0.7:
+                ops.append({"a": "get_n_trials", "s": r.randint(1, ns), "state": r.choice(["ALL", "COMPLETE", "RUNNING"])})
+        for s in range(1, ns + 1):
+            ops.append({"a": "get_best_trial", "s": s})
+            ops.append({"a": "get_all_trials", "s": s, "states": ["ALL"], "dc": 1, "as_list": 0})
+        out.append({"hid": f"ms{i}", "ops": ops})
+    return out
